@@ -37,7 +37,7 @@ META = {
                     "stub aligner for the realign emitter"],
 }
 
-MENU = ["tp:A:P", "NM:i:-3", "dv:f:-1.5e-3", "zd:Z:a b_#.-:*/", "ba:B:i,1,-2", "ch:A:*", "hx:H:1AE3", "id:f:.5", "s1:i:12"]
+MENU = ["tp:A:S", "NM:i:-3", "dv:f:-1.5e-3", "zd:Z:a b_#.-:*/", "ba:B:i,1,-2", "ch:A:*", "hx:H:1AE3", "id:f:.5", "s1:i:12"]
 TYPES = "AifZHB"
 
 
